@@ -213,6 +213,11 @@ class BaseTemplate:
         init = program[PROGRAM_NAME]
         functions = init(*builtins)
 
+        # Macros of a previously cooked version are gone
+        for name in tuple(self.__dict__):
+            if name.startswith('_render_') and name[1:] not in functions:
+                del self.__dict__[name]
+
         for name, function in functions.items():
             setattr(self, "_" + name, function)
 
